@@ -40,6 +40,15 @@ def install_counting_future():
     cc._verif_orig_ResponseFuture = base
 
     class CountingFuture(base):
+        def __init__(self, *a, **k):
+            base.__init__(self, *a, **k)
+            h = ConnHarness.current
+            if h is not None:
+                try:
+                    h.futures[int(self.query.query_string.split()[1])] = self
+                except Exception:
+                    pass
+
         def _set_result(self, host, connection, pool, response):
             h = ConnHarness.current
             r = None
@@ -53,8 +62,23 @@ def install_counting_future():
     cc.ResponseFuture = CountingFuture
 
 
+def yielding_handler():
+    """A ProtocolHandler whose encode_message is a DetSched yield point ("encode"): the place inside
+    Connection.send_msg between registering the handler and pushing the frame."""
+    import cassandra.protocol as cp
+    from harness.sim.detsched import yield_point
+
+    class YieldingHandler(cp.ProtocolHandler):
+        @classmethod
+        def encode_message(cls, msg, stream_id, protocol_version, compressor, allow_beta_protocol_version):
+            yield_point("encode")
+            return super(YieldingHandler, cls).encode_message(msg, stream_id, protocol_version, compressor,
+                                                              allow_beta_protocol_version)
+    return YieldingHandler
+
+
 class ConnHarness:
-    VARS = ("free", "highest", "inflight", "reqs", "orphans", "srv", "st", "rid", "got", "errs", "cps", "pages", "cperr",
+    VARS = ("free", "highest", "inflight", "reqs", "orphans", "srv", "st", "ph", "rid", "got", "errs", "cps", "pages", "cperr",
             "defunct", "closed", "writable")
     current = None
     DSE_V1 = 65
@@ -76,6 +100,7 @@ class ConnHarness:
                                     execution_profiles={EXEC_PROFILE_DEFAULT: profile, "cp": cp_profile},
                                     conviction_policy_factory=NeverConvict)
         self.session = self.cluster.connect()
+        self.session.client_protocol_handler = yielding_handler()
         self.cluster.executor.inline = False
         self.host = list(self.cluster.metadata.all_hosts())[0]
         self.pool = self.session._pools[self.host]
@@ -100,6 +125,8 @@ class ConnHarness:
         self.futures = {}
         self.started = set()
         self.borrowed = set()
+        self.sending = set()
+        self.returned = set()
         self.errs = {r: 0 for r in self.req_names}
         self.cbs = {r: 0 for r in self.req_names}
         self.late_adds = {r: 0 for r in self.req_names}
@@ -109,6 +136,7 @@ class ConnHarness:
         f = self.session.execute_async(SimpleStatement("SELECT %d" % r), timeout=10.0,
                                        execution_profile="cp" if r in self.cp_reqs else EXEC_PROFILE_DEFAULT)
         self.futures[r] = f
+        self.returned.add(r)
         return f
 
     def req_of_future(self, fut):
@@ -134,10 +162,24 @@ class ConnHarness:
         self.borrowed.add(r)
 
     def act_Send(self, r, rid):
-        self.sched.finish("C%d" % r)
+        lab = self.sched.run_until("C%d" % r, "encode")
         self.borrowed.discard(r)
+        if lab == "encode":
+            self.sending.add(r)
+        else:
+            self._returned(r)
+
+    def act_Push(self, r, rid):
+        self.sched.finish("C%d" % r)
+        self.sending.discard(r)
+        self._returned(r)
+
+    def _returned(self, r):
         f = self.futures[r]
         f.add_callbacks(lambda res, r=r: self._cb(r, res), lambda exc, r=r: self._eb(r, exc))
+
+    def act_TimeoutStale(self, r, rid):
+        self.futures[r]._on_timeout()
 
     def _cb(self, r, res):
         self.cbs[r] += 1
@@ -225,7 +267,7 @@ class ConnHarness:
                 st[r], rid[r], got[r] = "new", -1, frozenset()
                 continue
             rid[r] = self._rid.get(r, -1)
-            if f is None:
+            if f is None or r in self.borrowed:
                 st[r] = "borrowed"
                 got[r] = frozenset()
                 continue
@@ -249,7 +291,7 @@ class ConnHarness:
                     rows = f._final_result or []
                     got[r] = frozenset(row[0] for row in rows)
             else:
-                st[r] = "sent"
+                st[r] = "sending" if r in self.sending else "sent"
         reqs = {}
         for i, (cb, _, _) in c._requests.items():
             reqs[i] = self._req_of_cb(cb)
@@ -270,7 +312,8 @@ class ConnHarness:
                 cps[sid] = None
         return {
             "free": tuple(c.request_ids), "highest": c.highest_request_id, "inflight": c.in_flight,
-            "reqs": reqs, "orphans": frozenset(c.orphaned_request_ids), "srv": srv, "st": st, "rid": rid,
+            "reqs": reqs, "orphans": frozenset(c.orphaned_request_ids), "srv": srv, "st": st,
+            "ph": {r: ("encode" if r in self.sending else "none") for r in self.req_names}, "rid": rid,
             "got": got, "errs": dict(self.errs), "cps": cps, "pages": pages, "cperr": cperr,
             "defunct": bool(c.is_defunct), "closed": bool(c.is_closed), "writable": bool(c._socket_writable),
         }
@@ -291,7 +334,7 @@ def spec_view(state):
     return {
         "free": tuple(state["free"]), "highest": state["highest"], "inflight": state["inflight"],
         "reqs": fn(state["reqs"]), "orphans": frozenset(state["orphans"]),
-        "srv": frozenset(tuple(m) for m in state["srv"]), "st": fn(state["st"]), "rid": fn(state["rid"]),
+        "srv": frozenset(tuple(m) for m in state["srv"]), "st": fn(state["st"]), "ph": fn(state["ph"]), "rid": fn(state["rid"]),
         "got": {k: frozenset(v) for k, v in fn(state["got"]).items()}, "errs": fn(state["errs"]),
         "cps": fn(state["cps"]), "pages": fn(state["pages"]), "cperr": fn(state["cperr"]),
         "defunct": state["defunct"], "closed": state["closed"], "writable": state["writable"],
@@ -338,7 +381,7 @@ def _post(p, reqs):
         "inflight": p["inflight"], "highest": p["highest"], "free": list(p["free"]),
         "orphans": sorted(p["orphans"]), "reqs": sorted([i, r] for i, r in p["reqs"].items()),
         "srv": sorted(list(m) for m in p["srv"]),
-        "st": [p["st"][r] for r in reqs], "rid": [p["rid"][r] for r in reqs],
+        "st": [p["st"][r] for r in reqs], "ph": [p["ph"][r] for r in reqs], "rid": [p["rid"][r] for r in reqs],
         "got": [sorted(p["got"][r]) for r in reqs], "errs": [p["errs"][r] for r in reqs],
         "cps": sorted([i, r] for i, r in p["cps"].items()), "pages": [p["pages"][r] for r in reqs],
         "cperr": [p["cperr"][r] for r in reqs],
@@ -364,8 +407,15 @@ def record(constants, rng, max_events=40, p_fail=0.04):
                     ops.append(("Borrow", r))
                 if r in h.borrowed:
                     ops.append(("Send", r))
+                if r in h.sending:
+                    ops.append(("Push", r))
+                fs = h.futures.get(r)
+                if fs is not None and r in h.returned and not dead and r not in h.cp_reqs and \
+                        fs._final_result is not cassandra.cluster._NOT_SET and fs._req_id is not None and \
+                        fs._req_id not in c._requests and fs._req_id not in c._continuous_paging_sessions and rng.random() < 0.1:
+                    ops.append(("TimeoutStale", r))
                 f = h.futures.get(r)
-                if f is not None and not dead and r not in h.cp_reqs and f._final_exception is None and \
+                if f is not None and r in h.returned and not dead and r not in h.cp_reqs and f._final_exception is None and \
                         f._final_result is cassandra.cluster._NOT_SET and f._timer is not None and not f._timer.canceled:
                     ops.append(("Timeout", r))
             if not dead:
